@@ -13,9 +13,11 @@ import (
 
 func init() { register("C18", checkC18) }
 
-// reference model of one key
+// reference model of one key: an overlay holds at most a pending tombstone and a
+// pending write; the write wins while it is there, and cancelling it reveals the
+// tombstone (or the committed value) again.
 type refOv struct {
-	kind int // 0 none, 1 set, 2 deleted
+	kind int // 0 none, 1 set, 2 deleted (tombstone only), 3 set on top of a tombstone
 	tag  int
 }
 type refState struct {
@@ -41,7 +43,7 @@ func (o opResult) String() string {
 
 func refGet(committed int, o refOv) opResult {
 	switch o.kind {
-	case 1:
+	case 1, 3:
 		return opResult{found: true, tag: o.tag}
 	case 2:
 		return opResult{}
@@ -56,11 +58,17 @@ func refGet(committed int, o refOv) opResult {
 func refApply(s refState, op string, newTag int) (refState, opResult) {
 	switch op {
 	case "F.Set":
-		s.fin = refOv{1, newTag}
+		s.fin = refSet(s.fin, newTag)
 		return s, opResult{found: true, tag: newTag}
 	case "M.Set":
-		s.mem = refOv{1, newTag}
+		s.mem = refSet(s.mem, newTag)
 		return s, opResult{found: true, tag: newTag}
+	case "F.Cancel":
+		s.fin = refCancel(s.fin)
+		return s, opResult{}
+	case "M.Cancel":
+		s.mem = refCancel(s.mem)
+		return s, opResult{}
 	case "F.Get":
 		return s, refGet(s.committed, s.fin)
 	case "M.Get":
@@ -85,7 +93,7 @@ func refApply(s refState, op string, newTag int) (refState, opResult) {
 		return s, r
 	case "Commit":
 		switch s.fin.kind {
-		case 1:
+		case 1, 3:
 			s.committed = s.fin.tag
 		case 2:
 			s.committed = -1
@@ -96,7 +104,25 @@ func refApply(s refState, op string, newTag int) (refState, opResult) {
 	return s, opResult{err: true}
 }
 
-var ledgerOps = []string{"F.Set", "F.Get", "F.Del", "M.Set", "M.Get", "M.Del", "Read", "Commit"}
+func refSet(o refOv, tag int) refOv {
+	if o.kind == 2 || o.kind == 3 {
+		return refOv{3, tag}
+	}
+	return refOv{1, tag}
+}
+
+// refCancel withdraws the overlay's pending write of the key.
+func refCancel(o refOv) refOv {
+	switch o.kind {
+	case 1:
+		return refOv{}
+	case 3:
+		return refOv{2, 0}
+	}
+	return o
+}
+
+var ledgerOps = []string{"F.Set", "F.Get", "F.Del", "F.Cancel", "M.Set", "M.Get", "M.Del", "M.Cancel", "Read", "Commit"}
 
 // canonical renaming of tags so that the explored space is finite
 func canonPair(i ledgerState, r refState) (ledgerState, refState) {
@@ -117,10 +143,10 @@ func canonPair(i ledgerState, r refState) (ledgerState, refState) {
 	i.fin.got, i.fin.upd = mapTag(i.fin.got), mapTag(i.fin.upd)
 	i.mem.got, i.mem.upd = mapTag(i.mem.got), mapTag(i.mem.upd)
 	r.committed = mapTag(r.committed)
-	if r.fin.kind == 1 {
+	if r.fin.kind == 1 || r.fin.kind == 3 {
 		r.fin.tag = mapTag(r.fin.tag)
 	}
-	if r.mem.kind == 1 {
+	if r.mem.kind == 1 || r.mem.kind == 3 {
 		r.mem.tag = mapTag(r.mem.tag)
 	}
 	return i, r
@@ -137,8 +163,8 @@ func maxTag(i ledgerState, r refState) int {
 }
 
 func checkC18(w *World, r *Report) {
-	r.Explanation = "Structural clause of C18: (L-1) the SSA of the ledger package (generic origins of SetFinality/GetFinality/DelFinality/Commit, Set/Get/Del/Read and everything they call, including every memItems helper) is evaluated by an abstract interpreter over the finite abstract state of ONE key — per overlay: cached tag, updated tag, occurrences in the removed-key list; tree: absent or tag — and all operation sequences are explored to closure against the reference (a map with a consensus overlay and a mempool overlay of pending writes/tombstones): every read returns what the reference returns, a commit leaves the tree equal to the consensus overlay's net effect and empties both overlays' pending state, mempool operations never change what consensus reads or commits; (L-2) the IAVL tree is mutated only inside FinalityLedger.Commit, removals before updates; tree iterators read the tree only; (L-3) no version is ever deleted or overwritten in the module and ImmutableLedgerAt(n) loads exactly version n into a fresh tree with fresh overlays."
-	r.NotCovered = "iavl itself; reopen after close (needs the store); interaction between different keys beyond the per-key independence of maps and list membership; Cancel* operations (the property does not say what cancelling means after Set;Set or Del;Set); concurrency inside the ledger."
+	r.Explanation = "Structural clause of C18: (L-1) the SSA of the ledger package (generic origins of SetFinality/GetFinality/DelFinality/Commit, Set/Get/Del/Read and everything they call, including every memItems helper) is evaluated by an abstract interpreter over the finite abstract state of ONE key — per overlay: cached tag, updated tag, occurrences in the removed-key list; tree: absent or tag — and all operation sequences are explored to closure against the reference (a map with a consensus overlay and a mempool overlay of pending writes/tombstones): every read returns what the reference returns (a write wins over the overlay's own earlier tombstone while it is pending; cancelling the write reveals the tombstone or the committed value again), a commit leaves the tree equal to the consensus overlay's net effect and empties both overlays' pending state, mempool operations never change what consensus reads or commits; (L-2) the IAVL tree is mutated only inside FinalityLedger.Commit, removals before updates; tree iterators read the tree only; (L-3) no version is ever deleted or overwritten in the module and ImmutableLedgerAt(n) loads exactly version n into a fresh tree with fresh overlays."
+	r.NotCovered = "iavl itself; reopen after close (needs the store); interaction between different keys beyond the per-key independence of maps and list membership; concurrency inside the ledger."
 
 	l1(w, r)
 	l2(w, r)
@@ -175,6 +201,7 @@ func (w *World) ledgerFunctions(r *Report) *ledgerFns {
 		"F.Del": {pkgLedger, "FinalityLedger", "DelFinality"}, "Commit": {pkgLedger, "FinalityLedger", "Commit"},
 		"M.Set": {pkgLedger, "SimpleLedger", "Set"}, "M.Get": {pkgLedger, "SimpleLedger", "Get"},
 		"M.Del": {pkgLedger, "SimpleLedger", "Del"}, "Read": {pkgLedger, "SimpleLedger", "Read"},
+		"F.Cancel": {pkgLedger, "FinalityLedger", "CancelSetFinality"}, "M.Cancel": {pkgLedger, "SimpleLedger", "CancelSet"},
 	} {
 		f := needFn(r, "L-1", w, ref)
 		if f == nil {
@@ -228,6 +255,13 @@ func (w *World) applyImpl(lf *ledgerFns, s ledgerState, op string, newTag int) (
 			out.err = true
 		} else {
 			out = opResult{found: true, tag: newTag}
+		}
+	case "F.Cancel", "M.Cancel":
+		if len(res) != 1 {
+			return s, out, "unexpected result arity"
+		}
+		if !isNilA(res[0]) {
+			out.err = true
 		}
 	case "Commit":
 		if len(res) != 3 {
